@@ -453,3 +453,37 @@ def c11_id_aliases(form_id_first: bool, explicit_header: bool, tsel: int, i0: in
     if prim.getAttribute("id") != I:
         return False
     return text_of(title) == ("TT" if tsel else I)
+
+
+# ---- a'': values with inner white space (round 3) -----------------------------------------------
+def c11_inner_space(a0: int, a1: int, b0: int, b1: int, c0: int, c1: int, ctv: int) -> bool:
+    """
+    vpre: 32 <= a0 <= 35 and 32 <= a1 <= 35 and 32 <= b0 <= 35 and 32 <= b1 <= 35 and 32 <= c0 <= 35 and 32 <= c1 <= 35
+    vpre: 0 <= ctv <= 2
+    vpost: _ == True
+    """
+    T, V, St = "t" + S(a0, a1) + "u", "v" + S(b0, b1) + "w", "x" + S(c0, c1) + "y"
+    settings = {"form_title": T, "form_id": "fid", "version": V, "style": St}
+    if ctv:
+        settings["clean_text_values"] = ["", "yes", "no"][ctv]
+    wb = {"survey": [{"type": "text", "name": "q1", "label": "L"}], "settings": [settings]}
+    survey, _w, _js = build_survey(wb)
+    p = _parts(survey.xml())
+    if p is None:
+        return False
+    head, body, title, model, prim = p
+    return text_of(title) == T and prim.getAttribute("version") == V and body.getAttribute("class") == St
+
+
+specialise(
+    "C11",
+    "a.routing.inner-space",
+    c11_inner_space,
+    {"ctv": [0, 1, 2]},
+    timeout=300,
+    kernel=K,
+    shims=("S1", "S2", "S4"),
+    symbolic="title, version and style values of the form letter + 2 symbolic characters over U+0020-U+0023 (runs of spaces inside a value) + letter",
+    bounds="one-question form, dict settings row; clean_text_values setting absent / yes / no per instance (it governs survey and choices cells, not settings)",
+    weight=30,
+)
